@@ -4,10 +4,10 @@ CONSTANTS
   DepthLimit = 2
   Costs = {1}
   Requests = {0}
-  NCalls = 2
+  NCalls = 1
   GasArgs = {"0", "2300", "all"}
   Targets = {"empty", "returner", "reverter"}
-  CallValues = {"0", "1"}
+  CallValues = {"0", "1", "p255", "p255p1", "max"}
   Presents = {0}
 INVARIANTS CallInv CallDump
 CHECK_DEADLOCK FALSE
